@@ -176,7 +176,7 @@ CHECKS['C05'] = {
           'acceptance policy (version error / wrong AS / hold 1-2 / accept with hold = min) for every decoder result. Refuted by kernel-checked witnesses: capability pruning '
           'across sessions and 4-octet-AS parsing without the local capability (known findings). Oracle: OPEN of every session after histories of accepted/rejected sessions, '
           'acceptance reactions, AS_PATH delivered, over AS numbers across the 2/4-octet boundary, hold times and capability configurations.',
-  'note': SESSION_NOTE + 'known findings C05-capability-pruning, C05-asn4-without-local-capability, C05-hold-1-2-accepted-when-own-hold-0; OPEN octets are C14',
+  'note': SESSION_NOTE + 'known findings C05-capability-pruning, C05-asn4-without-local-capability (the hold-time finding was repaired: 3dd1a2d); OPEN octets are C14',
   'technique': 'Coq proof (invariant + symbolic execution) + refutation witnesses + translator + exploration correspondence',
 }
 CHECKS['C06'] = {
